@@ -384,10 +384,17 @@ func runMod(c caseT) (msg string, out string) {
 				}
 			}
 		}
+		// the request is a window of a longer array: what lies behind its end belongs to the caller
+		padReq := &modfile.Require{Mod: module.Version{Path: "sentinel.example/pad", Version: "v9.9.9"}}
+		reqW, intact := enum.Spare(req, padReq, 3)
 		if c.Setter == "SetRequire" {
-			f.SetRequire(req)
+			f.SetRequire(reqW)
 		} else {
-			f.SetRequireSeparateIndirect(req)
+			f.SetRequireSeparateIndirect(reqW)
+		}
+		if !intact() || padReq.Mod.Path != "sentinel.example/pad" || padReq.Syntax != nil {
+			msg = c.Setter + " wrote into the caller's array behind the end of the request list"
+			return
 		}
 		f.Cleanup()
 		if c.Then != "" {
@@ -601,7 +608,13 @@ func runWork(c caseT) (msg, out string) {
 			}
 		}()
 		w.Cleanup()
-		w.SetUse(req)
+		padUse := &modfile.Use{Path: "./sentinel-pad"}
+		reqW, intact := enum.Spare(req, padUse, 3)
+		w.SetUse(reqW)
+		if !intact() || padUse.Path != "./sentinel-pad" || padUse.Syntax != nil {
+			msg = "SetUse wrote into the caller's array behind the end of the request list"
+			return
+		}
 		w.Cleanup()
 	}()
 	if msg != "" {
